@@ -495,16 +495,25 @@ def d13_7(ctx):
         ok, how = False, ""
         comp = next((a_ for a_ in ancestors(n) if isinstance(a_, (ast.GeneratorExp, ast.ListComp))), None)
         for t in g.nodes:
-            if t.kind != "test" or not nodes or t.ast is None or not g.branch_dominates(t, True, nodes[0]):
+            if t.kind != "test" or not nodes or t.ast is None:
                 continue
-            conj = t.ast.values if isinstance(t.ast, ast.BoolOp) and isinstance(t.ast.op, ast.And) else [t.ast]
-            for e in conj:
+            facts = []  # expressions known to be true at the use
+            if g.branch_dominates(t, True, nodes[0]):
+                facts += t.ast.values if isinstance(t.ast, ast.BoolOp) and isinstance(t.ast.op, ast.And) else [t.ast]
+            if g.branch_dominates(t, False, nodes[0]):
+                # the test is false here: each disjunct is false, i.e. its negation holds (`x != c` false -> `x == c`; `not r` false -> `r`)
+                for d_ in (t.ast.values if isinstance(t.ast, ast.BoolOp) and isinstance(t.ast.op, ast.Or) else [t.ast]):
+                    if isinstance(d_, ast.Compare) and len(d_.ops) == 1 and isinstance(d_.ops[0], ast.NotEq):
+                        facts.append(ast.copy_location(ast.Compare(left=d_.left, ops=[ast.Eq()], comparators=d_.comparators), d_))
+                    elif isinstance(d_, ast.UnaryOp) and isinstance(d_.op, ast.Not):
+                        facts.append(d_.operand)
+            for e in facts:
                 if comp is None and isinstance(e, ast.Compare) and attr_path(e.left) == f"{base}.service_status" and isinstance(e.ops[0], ast.Eq) and isinstance(ctx.folder.eval(e.comparators[0], drv.module), int):
-                    ok, how = True, f"under `{src(e)}`"
+                    ok, how = True, f"under `{ast.unparse(e)}`"
                 if comp is not None and isinstance(e, ast.Call) and call_name(e) == "all" and e.args and atom_name(e.args[0]) == atom_name(comp.generators[0].iter) and atom_name(comp.generators[0].target) == base:
-                    ok, how = True, f"every element valid: `{src(e)}`"
+                    ok, how = True, f"every element valid: `{ast.unparse(e)}`"
                 if comp is None and (atom_name(e) == base or (isinstance(e, ast.Call) and attr_path(e.func) == f"{base}.is_valid")):
-                    ok, how = True, f"under `{src(e)}`"
+                    ok, how = True, f"under `{ast.unparse(e)}`"
         ctx.check(ok, ckey(f"{drv.key}.{mth.name}", f"nonnull:{src(n)}@{'comp' if comp is not None else 'stmt'}"), n, f"`{src(n)}` used {how}", f"`{src(n)}` is measured/joined without a dominating status or validity test of that reply: it is None for replies that failed to parse")
 
 
